@@ -62,9 +62,23 @@ class _FuseReluClipBase(RewriteRuleClassBase, abc.ABC):
     ):
         pass
 
+    @staticmethod
+    def _clip_dtype(node: ir.Node) -> ir.DataType | None:
+        """Element type of a Clip node: that of its input or, when the input carries no type
+        information (no shape inference has run), of a constant bound (same type by the spec)."""
+        if node.inputs[0].dtype is not None:
+            return node.inputs[0].dtype
+        for bound in node.inputs[1:]:
+            if bound is not None:
+                tensor = ir.convenience.get_const_tensor(bound)
+                if tensor is not None:
+                    return tensor.dtype
+        return None
+
     def extract_min_max(self, node: ir.Node):
-        # Infer dtype from node first input
-        dtype = node.inputs[0].dtype.numpy()
+        # Infer dtype from node first input (or from its bounds)
+        dtype = self._clip_dtype(node)
+        dtype = dtype.numpy() if dtype is not None else None
         min_clip, max_clip = None, None
 
         if len(node.inputs) > 1:
@@ -112,6 +126,9 @@ class _FuseReluClipBase(RewriteRuleClassBase, abc.ABC):
 
             if ir.convenience.get_const_tensor(m) is None:
                 return check_result.fail(f"{m.name} is not a constant.")
+
+        if self._clip_dtype(first_clip_node) is None:
+            return check_result.fail("The element type of the Clip input is unknown.")
 
         return check_result
 
